@@ -76,14 +76,23 @@ def check_detection(col, case, sub='wrapper'):
     adm, d, m, names = admissible(data, allowed)
     # an expected_format that is NOT among the allowed formats must have no
     # effect at all (that format is never considered, nothing can abort)
+    # expected_format: either outside the allowed formats (it must then have
+    # no effect at all), or a format whose signature is definitely present
+    # (its inspector matches, so nothing aborts and detection must behave as
+    # without it).  A stream the expected inspector aborts is C06's subject:
+    # not judged here.
     expected = case.get('expected')
-    if expected is not None and (not allowed or expected in allowed):
-        raise core.HarnessError('C03 only uses expected_format outside '
-                                'allowed_formats: %r' % (case,))
+    inside = expected is not None and (not allowed or expected in allowed)
+    if inside and expected not in d:
+        raise core.HarnessError('C03 uses an allowed expected_format only '
+                                'when its signature is present: %r' % (case,))
     with imgdrive.inspector_loglevel(case.get('loglevel')):
         (fm, fs), samples, got, err, w = imgdrive.drive_wrapper(
             data, sched, mode, allowed=allowed, sample=True,
             expected=expected)
+    if inside and err is not None:
+        col.unspec(sub, 'expected inspector aborted the stream (C06)')
+        return
     n = len(data)
     near = any(abs(n - p) <= 1 for p in LENGTH_POINTS)
     kind = case['content'].get('kind', '?')
@@ -95,7 +104,8 @@ def check_detection(col, case, sub='wrapper'):
               'allowed=' + ('all' if not allowed else
                             ('1' if len(allowed) == 1 else 'subset')),
               'outcome=' + str(fm), 'mode=' + mode] +
-             (['expected-outside-allowed'] if expected else []) +
+             (['expected-' + ('inside' if inside else 'outside')]
+              if expected else []) +
              (['loglevel=' + case['loglevel']] if case.get('loglevel')
               else []),
              {'content': _brief(case['content']), 'len': n,
@@ -240,6 +250,15 @@ def overlay_sweep(col, sig0, background):
                                               'allowed': None,
                                               'schedule': sched,
                                               'mode': mode}, sub)
+                    if len(sigs) >= 2:
+                        from vcheck import imgstrat
+                        present, _m = sigmodel.classify(
+                            imgstrat.realize(content)[0])
+                        for exp in sorted(present):
+                            check_detection(col, {
+                                'content': content, 'allowed': None,
+                                'expected': exp, 'schedule': ['fixed', 512],
+                                'mode': 'read'}, sub)
     col.exhaustive.setdefault(sub, True)
 
 
@@ -258,11 +277,20 @@ def restricted_sweep(col, fmt):
                  'kind': 'valid'},
                 {'bytes': ('\n'.join(imggen.VMDK_DEFAULT_LINES) + '\n')
                  .encode().hex(), 'kind': 'textdesc'}]
+    if fmt == 'vmdk':
+        # an ASCII createType line followed by binary: not text, no KDMV
+        for head in (b'createType="monolithicSparse"\n',
+                     b'createType="streamOptimized"\nRW 1 SPARSE "a"\n'):
+            contents.append({'bytes': (head + b'\x00\xff\x80\x01' * 150)
+                             .hex(), 'kind': 'textdesc'})
+            contents.append({'bytes': (head[:40] + b'\xff' + head[40:]
+                                       + b'\n' * 100).hex(),
+                             'kind': 'textdesc'})
     if fmt in ('vhdx', 'iso'):
         contents[0] = {'base': [fmt, {}], 'kind': 'valid'}
     for content in contents:
         for allowed in ([fmt], [fmt, 'raw'], ['raw', fmt, 'qcow2']):
-            for k in (1, 3, 7, 8, 9, 512, 4096):
+            for k in (1, 3, 7, 8, 9, 12, 16, 32, 512, 4096):
                 from vcheck import imgstrat
                 n = len(imgstrat.realize(content)[0])
                 if n / k > 5000:
@@ -304,6 +332,23 @@ def nearmiss_sweep(col, background):
                     check_detection(col, {'content': content, 'allowed': None,
                                           'schedule': ['fixed', 4096],
                                           'mode': 'read'}, sub)
+    # the bytes right before and after an intact signature take every value
+    from vcheck import imgstrat
+    for name, (off, sig, need) in imggen.SIGNATURES.items():
+        length = max(need, 600) + 5
+        base = imggen.overlay(length, background, (name,), 3)
+        for pos in (off - 1, off + len(sig)):
+            if pos < 0:
+                continue
+            for v in range(256):
+                data = bytearray(base)
+                data[pos] = v
+                if name == 'gpt' and data[0x10] == 2 and data[0x15] == 0xF8:
+                    continue
+                content = {'bytes': bytes(data).hex(), 'kind': 'polyglot'}
+                check_detection(col, {'content': content, 'allowed': None,
+                                      'schedule': ['fixed', 4096],
+                                      'mode': 'read'}, sub)
     col.exhaustive.setdefault(sub, True)
 
 
@@ -366,6 +411,11 @@ def wrapper(col, seed, max_examples, fmts, max_len):
             outside = [f for f in ALL if f not in allowed]
             if outside:
                 expected = draw(st.sampled_from(outside))
+        elif draw(st.booleans()):
+            present, _m = sigmodel.classify(
+                data, allowed=None if not allowed else allowed)
+            if present:
+                expected = draw(st.sampled_from(sorted(present)))
         return {'content': content, 'allowed': allowed, 'expected': expected,
                 'schedule': sched,
                 'loglevel': draw(st.sampled_from([None, None, 'DEBUG'])),
